@@ -158,6 +158,11 @@ func (e *e11) aliasesOf(fn *ssa.Function, roots ...ssa.Value) map[ssa.Value]bool
 					cells[al] = true
 					changed = true
 				}
+				// stored into an object this function has just made: the object stands for
+				// the resource from now on (returning or publishing the object hands it on)
+				if obj := localObjectOf(x.Addr); obj != nil && A[x.Val] {
+					add(obj)
+				}
 			case *ssa.UnOp:
 				if x.Op == token.MUL {
 					if al, ok := x.X.(*ssa.Alloc); ok && cells[al] {
@@ -174,12 +179,35 @@ func (e *e11) aliasesOf(fn *ssa.Function, roots ...ssa.Value) map[ssa.Value]bool
 	return A
 }
 
+// localObjectOf: addr is a field (through value-embedded structs) of an object allocated by
+// this very function (`w := &wsPipe{…}; w.ws = conn`): nobody else can reach it yet.
+func localObjectOf(addr ssa.Value) *ssa.Alloc {
+	for i := 0; i < 4; i++ {
+		fa, ok := addr.(*ssa.FieldAddr)
+		if !ok {
+			return nil
+		}
+		switch b := fa.X.(type) {
+		case *ssa.Alloc:
+			if b.Heap || b.Comment == "complit" || b.Comment == "new" {
+				return b
+			}
+			return nil
+		case *ssa.FieldAddr:
+			addr = b
+		default:
+			return nil
+		}
+	}
+	return nil
+}
+
 // discharges: the instruction closes an alias or hands it on.
 func (e *e11) discharges(in ssa.Instruction, A map[ssa.Value]bool, depth int) bool {
 	switch x := in.(type) {
 	case *ssa.Store:
 		if A[x.Val] {
-			if _, local := x.Addr.(*ssa.Alloc); !local {
+			if _, local := x.Addr.(*ssa.Alloc); !local && localObjectOf(x.Addr) == nil {
 				return true
 			}
 		}
